@@ -42,6 +42,9 @@ lex  == <<101, 120>>
 lEx  == <<69, 120>>                      \* case variant of "ex"
 lcom == <<99, 111, 109>>
 lorg == <<111, 114, 103>>
+l1ex  == <<49>> \o lex                   \* "1ex": one character more than "ex"
+lmyex == <<109, 121>> \o lex             \* "myex"
+l62  == [i \in 1..62 |-> 122]
 ldot == <<97, 46, 98>>                   \* "a.b" as ONE label
 lbs  == <<97, 92, 98>>                   \* contains a backslash
 lbsd == <<92, 49, 50, 51>>               \* backslash followed by digits
@@ -184,7 +187,33 @@ MultiRecs == <<
   \* DNS UPDATE shaped message (opcode 5): zone, prerequisite, update
   Msg(Hdr(7, 0, 5, 0, 0, 0, 0, 0, 0, 0, 0), <<Q(N1, TSOA, 1)>>,
       <<>>, <<RR(N2, TA, 1, T1, [k |-> "A", addr |-> <<192, 0, 2, 1>>]),
-              RR(N3, TTXT, 1, T1, [k |-> "TXT", chunks |-> <<<<117>>>>])>>, <<>>)
+              RR(N3, TTXT, 1, T1, [k |-> "TXT", chunks |-> <<<<117>>>>])>>, <<>>),
+  \* pointer cycle hidden in opaque RDATA: with all names compressed the RDATA starts at offset 40 and
+  \* holds 40: ->40, 42: ->40, 44: ->42; the "ptr" mutation retargets the next owner pointer into it
+  \* (chain S -> 44 -> 42 -> 40 -> 40: every hop but the last strictly backward)
+  Msg(StdHdr, <<Q(N2, TA, 1)>>,
+      <<RR(N2, 99, 1, T1, [k |-> "RAW", rtype |-> 99, data |-> <<192, 40, 192, 40, 192, 42>>]),
+        RR(N2, TA, 1, T1, [k |-> "A", addr |-> <<1, 2, 3, 4>>]),
+        RR(N3, TNS, 1, T1, [k |-> "NS", name |-> N2])>>, <<>>, <<>>),
+  \* names that END WITH an earlier name without being label aligned: one extra character ("1ex.com"
+  \* after "ex.com", "ab.ex.com" / "xb.ex.com" after "b.ex.com") and more ("myex.com"); as owner names
+  \* and in NS / CNAME / MX / SOA RDATA.  None of them may be written as a pointer to the earlier name.
+  Msg(StdHdr, <<Q(N1, TNS, 1)>>,
+      <<RR(N1, TNS, 1, T1, [k |-> "NS", name |-> <<l1ex, lcom>>]),
+        RR(<<l1ex, lcom>>, TCNAME, 1, T1, [k |-> "CNAME", name |-> <<lb, lex, lcom>>]),
+        RR(N1, TMX, 1, T1, [k |-> "MX", preference |-> 10, exchange |-> <<la \o lb, lex, lcom>>])>>,
+      <<RR(N1, TSOA, 1, T1,
+           [k |-> "SOA", mname |-> <<<<120>> \o lb, lex, lcom>>, rname |-> <<lmyex, lcom>>,
+            serial |-> <<0, 1>>, refresh |-> <<0, 2>>, retry |-> <<0, 3>>, expire |-> <<0, 4>>,
+            minimum |-> <<0, 5>>])>>,
+      <<RR(<<<<50>> \o lex, lcom>>, TA, 1, T1, [k |-> "A", addr |-> <<1, 2, 3, 4>>]),
+        RR(<<lmyex, lcom>>, TA, 1, T1, [k |-> "A", addr |-> <<5, 6, 7, 8>>])>>),
+  \* the same overlaps one label further left, and with the longer name written FIRST
+  Msg(StdHdr, <<Q(<<l1ex, lcom>>, TA, 1)>>,
+      <<RR(<<l1ex, lcom>>, TCNAME, 1, T1, [k |-> "CNAME", name |-> N1]),
+        RR(N1, TNS, 1, T1, [k |-> "NS", name |-> <<la, lb, lorg>>]),
+        RR(N1, TNS, 1, T1, [k |-> "NS", name |-> <<lb \o la, lb, lorg>>]),
+        RR(<<<<97, 97>>, lb, lorg>>, TPTR, 1, T1, [k |-> "PTR", name |-> <<lb, lorg>>])>>, <<>>, <<>>)
 >>
 
 FlagHdrs ==
@@ -275,6 +304,17 @@ ApiRecs == <<
   Msg(StdHdr, <<Q(N1, TNS, 1)>>,
       <<RR(N1, TNS, 1, T1, [k |-> "NS", name |-> <<lwww \o lex, lcom>>]),
         RR(<<lwww \o lex, lcom>>, TA, 1, T1, [k |-> "A", addr |-> <<1, 2, 3, 4>>])>>, <<>>, <<>>),
+  \* boundary lengths: labels of 62 / 63 octets, names of 253 / 254 / 255 octets, in the question, as
+  \* owner and in RDATA
+  Msg(StdHdr, <<Q(<<l62, lcom>>, TA, 1)>>,
+      <<RR(<<l62, lcom>>, TCNAME, 1, T1, [k |-> "CNAME", name |-> <<l63, l62, lcom>>]),
+        RR(<<l63, l62, lcom>>, TCNAME, 1, T1, [k |-> "CNAME", name |-> <<l62, l63, lorg>>])>>, <<>>, <<>>),
+  Msg(StdHdr, <<Q(<<l63, l63, l63, [i \in 1..59 |-> 121]>>, TA, 1)>>,
+      <<RR(<<l63, l63, l63, [i \in 1..59 |-> 121]>>, TCNAME, 1, T1,
+           [k |-> "CNAME", name |-> <<l63, l63, l63, [i \in 1..60 |-> 121]>>]),
+        RR(<<l63, l63, l63, [i \in 1..60 |-> 121]>>, TMX, 1, T1, [k |-> "MX", preference |-> 1, exchange |-> N9]),
+        RR(N9, TSRV, 1, T1, [k |-> "SRV", priority |-> 1, weight |-> 2, port |-> 3,
+                             target |-> <<l62, l62, l62, l62>>])>>, <<>>, <<>>),
   \* maximal field values
   Msg(Hdr(65535, 1, 5, 1, 1, 1, 1, 0, 1, 1, 11), <<Q(N0, 65535, 255)>>,
       <<RR(N0, TA, 254, <<65535, 65535>>, [k |-> "A", addr |-> <<255, 255, 255, 255>>])>>, <<>>,
@@ -374,7 +414,7 @@ Muts(b, marks) ==
   (IF "ptr" \in MutKinds
    THEN {[k |-> "ptr", pos |-> p, val |-> t] :
            p \in MarksOf(marks, {"ptr"}),
-           t \in {0, 12, Len(b), Len(b) - 1} \cup MarksOf(marks, {"ptr"})
+           t \in {0, 12, Len(b), Len(b) - 1} \cup MarksOf(marks, {"ptr", "raw"})
                  \cup {q + 2 : q \in MarksOf(marks, {"ptr"})} \cup {q - 1 : q \in MarksOf(marks, {"ptr"})}}
    ELSE {})
 
